@@ -56,6 +56,21 @@ CLAIMED = {
             "Generated element counts (incl. fewer than workers, non-multiples), pool sizes 1..33, three topologies: every primitive/element visited exactly once with its own data, Modify*Parallel bit-identical to sequential; asymmetric marching fields inside one block or across boundaries: AddFieldParallel, AddFieldParallel2, MarchParallel give the sequential triangle multiset. The binary is race-instrumented; any race report while a case runs is a violation; campaigns run concurrently under taskset masks so NumCPU-sized pools vary. Schedules are sampled, not owned.",
             "Trusted: the Go race detector; callbacks are race-free. Rare interleavings are only sampled.",
             "DESIGN.md §4 C10"),
+    "C11": ("exploration",
+            "stateful model-based property testing (rapid): action histories against a from-scratch evaluator and a logical-clock execution model",
+            "Generated histories (up to 72 actions, <= 14 nodes) of add node / connect / reconnect / disconnect (incl. array inputs) / set source (also same value, parameter sources through ApplyMessage) / read / State() over harness-defined processors that count their executions: every read equals a from-scratch evaluation; a processor executes during a read only if something in its upstream closure changed since its last execution, at most once; Version() == executions after every step; State() matches the model. Replays of failing histories run 20x because the pinned-tree defect depended on map order. Sampling level.",
+            "Trusted: the model in harness/c11. Processors read all connected inputs; acyclic graphs.",
+            "DESIGN.md §4 C11"),
+    "C12": ("exploration",
+            "stateful property testing (rapid) on generator.App through a build-tag hook: edit histories, save -> load into a fresh App -> compare -> save again; shipped graph files enumerated",
+            "Generated edit histories (up to ~90 actions) over every registered node type (all packages cmd/polyform imports + two harness nodes): create, connect incl. array inputs beyond ten entries, disconnect, parameter updates of every parameter type, rename, producers, nested metadata set/delete, delete; at drawn points and at the end the graph is saved, loaded into a fresh App and compared (ids, types, ordered dependencies, parameter payloads, producers, metadata, app fields), artifacts of deterministic producers compared, second save byte-identical, two saves identical; every shipped graph file loaded/saved/loaded/saved. Known finding (jbtf ignores bufferView length) excluded by construction and pinned. Sampling level.",
+            "Trusted: graph.Instance.Schema() as the observable view plus ParameterData; hook generator/verif_hooks.go (add-only, build tag verif).",
+            "DESIGN.md §4 C12"),
+    "C13": ("exploration",
+            "concurrent history recording with real goroutines + porcupine linearizability checking against a sequential model, under the Go race detector",
+            "Generated client scripts (2..6 goroutines x 3..10 operations, drawn yields, GOMAXPROCS 2..16) of UpdateParameter / ParameterData / Artifact on a graph with two producers over four parameters through shared and two-level nodes; invocation/response stamped by an atomic logical clock; porcupine must find a sequential order consistent with real time in which every artifact renders one whole parameter vector; race-instrumented binary, any race report or crash is a violation. Schedules are sampled (24 000 histories quick), not owned.",
+            "Trusted: porcupine v1.3.0, the Go race detector. Rare interleavings are only sampled.",
+            "DESIGN.md §4 C13"),
     "C14": ("fault_enumeration",
             "fault enumeration over generated files: EVERY cut position (every token boundary for ascii bodies) of each generated valid PLY/STL/SPZ/.splat/PTS file is decoded and classified",
             "For each generated valid file (reference-encoded and writer-produced PLY in three encodings with faces/texcoords/quads, binary STL, gzip'd SPZ v1/v2 with arbitrary packed bytes, .splat, PTS with 3/4/7 columns) every cut position is decoded under a watchdog: outcome must be an error, the complete mesh (only trailing framing cut), the fully contained splats, or a value-equal subset; a runtime panic, fabricated/shifted value, extra element or non-termination is a violation. Exhaustive per file (~300 cuts/file, ~10^6 cuts quick); files are sampled.",
